@@ -2,6 +2,7 @@
 import Paho.Driver.Common
 import Paho.Driver.Props
 import Paho.Model.Codec
+import Paho.Model.SubArgs
 import Paho.Spec.Wire
 namespace Paho.Driver
 open Paho
@@ -135,7 +136,11 @@ def codecStep (u : Unit) (ws : List String) : Unit × String :=
           | some tb, some ob => some (tb, ob)
           | _, _ => none
         | _ => none
-      (u, showEnc (encSubscribe proto (getN m "mid" 1) ents props) proto)
+      -- the list form of subscribe(): argument normalisation first (MQTT 5: SubscribeOptions objects, MQTT 3: QoS ints)
+      let pairs : List (Bytes × Second Nat) := ents.map fun e => (e.1, if proto = 5 then Second.opts e.2 else Second.int e.2)
+      match Sub.normalize proto (.list pairs) 0 .none with
+      | .error e => (u, showExcName e)
+      | .ok l => (u, showEnc (encSubscribe proto (getN m "mid" 1) (l.map fun e => (e.1, entryByte e.2)) props) proto)
   | "unsubscribe" :: rest =>
     let m := kvs rest
     let proto := getN m "proto" 4
@@ -143,7 +148,9 @@ def codecStep (u : Unit) (ws : List String) : Unit × String :=
     | .error e => (u, e)
     | .ok props =>
       let ents := ((getS m "filters" "").splitOn ",").filterMap parseHex
-      (u, showEnc (encUnsubscribe proto (getN m "mid" 1) ents props) proto)
+      match unsubNormalize (.list ents) with
+      | .error e => (u, showExcName e)
+      | .ok l => (u, showEnc (encUnsubscribe proto (getN m "mid" 1) l props) proto)
   | "disconnect" :: rest =>
     let m := kvs rest
     let proto := getN m "proto" 4
